@@ -650,7 +650,9 @@ func genCache(r *core.Rand, maxOps int) (string, bool) {
 			if r.Chance(2, 3) {
 				best++
 			}
-			ops = append(ops, fmt.Sprintf("w%c%d%d:%d", "rpi"[r.Intn(3)], r.Intn(2), r.Intn(2), best))
+			// threshold: 0 far, 1 zero, 2 exactly reached, 3 one byte short; timer: 0 now, 1 long ago,
+			// 2 just under the interval, 3 just over
+			ops = append(ops, fmt.Sprintf("w%c%d%d:%d", "rpi"[r.Intn(3)], r.Intn(4), r.Intn(4), best))
 		}
 	}
 	return "C03 cache " + strings.Join(ops, " "), n >= 4
